@@ -276,7 +276,11 @@ fn get_data_type(
 }
 
 fn get_documentation(docs: &[String]) -> Option<String> {
-    let documentation: String = docs.concat();
+    // (in documents with CR LF line ends, the CR is the last character of a comment)
+    let documentation: String = docs
+        .iter()
+        .map(|line| line.trim_end_matches('\r'))
+        .collect();
     if documentation.is_empty() {
         None
     } else {
